@@ -163,11 +163,12 @@ def wrap(rng, sch, levels):
     return sch
 
 
-def topo(rng, decoy_p=0.3):
+def topo(rng, decoy_p=0.3, mid_p=0.4, bare_p=1 / 3):
     """Several use sites in ONE instance (array positions or properties) reach one generic resource G, which holds the $dynamicRef '#N',
     through different intermediate resources; a resource is entered at its root or by a JSON Pointer into its middle ($defs/entry), at
     equal or different stack depths. No python oracle: the real package is compared with the model (proved equal to the Spec's
-    outermost-declaring-resource rule)."""
+    outermost-declaring-resource rule). mid_p: probability that a resource is entered in the middle; bare_p: probability that a hop is
+    the only keyword of the schema that holds it (a bare {"$ref": ...}) instead of sitting behind allOf / anyOf / if wrappers."""
     k = rng.randint(2, 5)                     # resources 1..k-1 are intermediates, k is G
     kinds = [rng.choice(["dyn", "dyn", "anchor", "none"]) for _ in range(k + 1)]
     kinds[k] = rng.choice(["dyn", "dyn", "dyn", "anchor", "none"])
@@ -206,7 +207,7 @@ def topo(rng, decoy_p=0.3):
         mine = [inter.pop() for _ in range(min(len(inter), rng.randint(0, 2)))]
         chain_ = mine + [k]
         # the site schema enters the first resource of its chain; every intermediate enters the next one
-        mids = [rng.random() < 0.4 for _ in chain_]
+        mids = [rng.random() < mid_p for _ in chain_]
         mids[-1] = g_mid
         reenter = len(mine) >= 2 and kinds[mine[0]] != "none" and rng.random() < 0.35
         if reenter:
@@ -218,7 +219,7 @@ def topo(rng, decoy_p=0.3):
                 hop = Obj([("$ref", res_name(mine[0]) + "#/$defs/back")])
             else:
                 hop = Obj([("$ref", enter(b_, mb))]) if rng.random() < 0.8 or mb else Obj([("$dynamicRef", enter(b_, mb))])
-            lv = rng.randint(0, 2)
+            lv = 0 if rng.random() < bare_p else rng.randint(1, 2)
             if lv == 0:
                 place(a, ma, hop.kvs)
             else:
